@@ -51,11 +51,11 @@ def R_ts_vcov (g : Gen.ts_vcov.St) (m : Cross) : Prop :=
 theorem ts_vcov_add (w mp : Nat) (g : Gen.ts_vcov.St) (m : Cross) (v : Pair) (h : R_ts_vcov g m) :
     R_ts_vcov (Gen.ts_vcov.add w g v) ((crossRoll (emitCov mp)).add m v) := by
   obtain ⟨h0, h1, h2, h3⟩ := h
-  rcases v with ⟨_ | a, _ | b⟩ <;> simp [Gen.ts_vcov.add, crossRoll, Cross.add, Cross.remove, R_ts_vcov, h0, h1, h2, h3]
+  rcases v with ⟨_ | a, _ | b⟩ <;> simp [Gen.ts_vcov.add, crossRoll, Cross.add, Cross.remove, R_ts_vcov, h0, h1, h2, h3, pow_two, pow_succ] <;> try ring
 theorem ts_vcov_post (w mp : Nat) (g : Gen.ts_vcov.St) (m : Cross) (x : Pair) (h : R_ts_vcov g m) :
     R_ts_vcov (Gen.ts_vcov.post w g (some x)) ((crossRoll (emitCov mp)).remove m x) := by
   obtain ⟨h0, h1, h2, h3⟩ := h
-  rcases x with ⟨_ | a, _ | b⟩ <;> simp [Gen.ts_vcov.post, crossRoll, Cross.add, Cross.remove, R_ts_vcov, h0, h1, h2, h3]
+  rcases x with ⟨_ | a, _ | b⟩ <;> simp [Gen.ts_vcov.post, crossRoll, Cross.add, Cross.remove, R_ts_vcov, h0, h1, h2, h3, pow_two, pow_succ] <;> try ring
 theorem ts_vcov_emit (sqrt : Rat → Rat) (w mp : Nat) (g : Gen.ts_vcov.St) (m : Cross) (v : Pair) (h : R_ts_vcov g m) :
     Agree sqrt (Gen.ts_vcov.emit sqrt w mp g v) ((crossRoll (emitCov mp)).emit m) := by
   obtain ⟨h0, h1, h2, h3⟩ := h
@@ -100,11 +100,11 @@ def R_ts_vcorr (g : Gen.ts_vcorr.St) (m : Cross) : Prop :=
 theorem ts_vcorr_add (w mp : Nat) (g : Gen.ts_vcorr.St) (m : Cross) (v : Pair) (h : R_ts_vcorr g m) :
     R_ts_vcorr (Gen.ts_vcorr.add w g v) ((crossRoll (emitCorr mp)).add m v) := by
   obtain ⟨h0, h1, h2, h3, h4, h5⟩ := h
-  rcases v with ⟨_ | a, _ | b⟩ <;> simp [Gen.ts_vcorr.add, crossRoll, Cross.add, Cross.remove, R_ts_vcorr, h0, h1, h2, h3, h4, h5]
+  rcases v with ⟨_ | a, _ | b⟩ <;> simp [Gen.ts_vcorr.add, crossRoll, Cross.add, Cross.remove, R_ts_vcorr, h0, h1, h2, h3, h4, h5, pow_two, pow_succ] <;> try ring
 theorem ts_vcorr_post (w mp : Nat) (g : Gen.ts_vcorr.St) (m : Cross) (x : Pair) (h : R_ts_vcorr g m) :
     R_ts_vcorr (Gen.ts_vcorr.post w g (some x)) ((crossRoll (emitCorr mp)).remove m x) := by
   obtain ⟨h0, h1, h2, h3, h4, h5⟩ := h
-  rcases x with ⟨_ | a, _ | b⟩ <;> simp [Gen.ts_vcorr.post, crossRoll, Cross.add, Cross.remove, R_ts_vcorr, h0, h1, h2, h3, h4, h5]
+  rcases x with ⟨_ | a, _ | b⟩ <;> simp [Gen.ts_vcorr.post, crossRoll, Cross.add, Cross.remove, R_ts_vcorr, h0, h1, h2, h3, h4, h5, pow_two, pow_succ] <;> try ring
 theorem ts_vcorr_emit (sqrt : Rat → Rat) (w mp : Nat) (g : Gen.ts_vcorr.St) (m : Cross) (v : Pair) (h : R_ts_vcorr g m) :
     AgreeW (Gen.ts_vcorr.emit sqrt w mp g v) ((crossRoll (emitCorr mp)).emit m) := by
   obtain ⟨h0, h1, h2, h3, h4, h5⟩ := h
@@ -142,11 +142,11 @@ def R_ts_vregx_alpha (g : Gen.ts_vregx_alpha.St) (m : Cross) : Prop :=
 theorem ts_vregx_alpha_add (w mp : Nat) (g : Gen.ts_vregx_alpha.St) (m : Cross) (v : Pair) (h : R_ts_vregx_alpha g m) :
     R_ts_vregx_alpha (Gen.ts_vregx_alpha.add w g v) ((crossRoll (emitAlpha mp)).add m v) := by
   obtain ⟨h0, h1, h2, h3, h4⟩ := h
-  rcases v with ⟨_ | a, _ | b⟩ <;> simp [Gen.ts_vregx_alpha.add, crossRoll, Cross.add, Cross.remove, R_ts_vregx_alpha, h0, h1, h2, h3, h4]
+  rcases v with ⟨_ | a, _ | b⟩ <;> simp [Gen.ts_vregx_alpha.add, crossRoll, Cross.add, Cross.remove, R_ts_vregx_alpha, h0, h1, h2, h3, h4, pow_two, pow_succ] <;> try ring
 theorem ts_vregx_alpha_post (w mp : Nat) (g : Gen.ts_vregx_alpha.St) (m : Cross) (x : Pair) (h : R_ts_vregx_alpha g m) :
     R_ts_vregx_alpha (Gen.ts_vregx_alpha.post w g (some x)) ((crossRoll (emitAlpha mp)).remove m x) := by
   obtain ⟨h0, h1, h2, h3, h4⟩ := h
-  rcases x with ⟨_ | a, _ | b⟩ <;> simp [Gen.ts_vregx_alpha.post, crossRoll, Cross.add, Cross.remove, R_ts_vregx_alpha, h0, h1, h2, h3, h4]
+  rcases x with ⟨_ | a, _ | b⟩ <;> simp [Gen.ts_vregx_alpha.post, crossRoll, Cross.add, Cross.remove, R_ts_vregx_alpha, h0, h1, h2, h3, h4, pow_two, pow_succ] <;> try ring
 theorem ts_vregx_alpha_emit (sqrt : Rat → Rat) (w mp : Nat) (g : Gen.ts_vregx_alpha.St) (m : Cross) (v : Pair) (h : R_ts_vregx_alpha g m) :
     Agree sqrt (Gen.ts_vregx_alpha.emit sqrt w mp g v) ((crossRoll (emitAlpha mp)).emit m) := by
   obtain ⟨h0, h1, h2, h3, h4⟩ := h
@@ -184,11 +184,11 @@ def R_ts_vregx_beta (g : Gen.ts_vregx_beta.St) (m : Cross) : Prop :=
 theorem ts_vregx_beta_add (w mp : Nat) (g : Gen.ts_vregx_beta.St) (m : Cross) (v : Pair) (h : R_ts_vregx_beta g m) :
     R_ts_vregx_beta (Gen.ts_vregx_beta.add w g v) ((crossRoll (emitBeta mp)).add m v) := by
   obtain ⟨h0, h1, h2, h3, h4⟩ := h
-  rcases v with ⟨_ | a, _ | b⟩ <;> simp [Gen.ts_vregx_beta.add, crossRoll, Cross.add, Cross.remove, R_ts_vregx_beta, h0, h1, h2, h3, h4]
+  rcases v with ⟨_ | a, _ | b⟩ <;> simp [Gen.ts_vregx_beta.add, crossRoll, Cross.add, Cross.remove, R_ts_vregx_beta, h0, h1, h2, h3, h4, pow_two, pow_succ] <;> try ring
 theorem ts_vregx_beta_post (w mp : Nat) (g : Gen.ts_vregx_beta.St) (m : Cross) (x : Pair) (h : R_ts_vregx_beta g m) :
     R_ts_vregx_beta (Gen.ts_vregx_beta.post w g (some x)) ((crossRoll (emitBeta mp)).remove m x) := by
   obtain ⟨h0, h1, h2, h3, h4⟩ := h
-  rcases x with ⟨_ | a, _ | b⟩ <;> simp [Gen.ts_vregx_beta.post, crossRoll, Cross.add, Cross.remove, R_ts_vregx_beta, h0, h1, h2, h3, h4]
+  rcases x with ⟨_ | a, _ | b⟩ <;> simp [Gen.ts_vregx_beta.post, crossRoll, Cross.add, Cross.remove, R_ts_vregx_beta, h0, h1, h2, h3, h4, pow_two, pow_succ] <;> try ring
 theorem ts_vregx_beta_emit (sqrt : Rat → Rat) (w mp : Nat) (g : Gen.ts_vregx_beta.St) (m : Cross) (v : Pair) (h : R_ts_vregx_beta g m) :
     Agree sqrt (Gen.ts_vregx_beta.emit sqrt w mp g v) ((crossRoll (emitBeta mp)).emit m) := by
   obtain ⟨h0, h1, h2, h3, h4⟩ := h
@@ -226,11 +226,11 @@ def R_ts_vregx_all (g : Gen.ts_vregx_all.St) (m : Cross) : Prop :=
 theorem ts_vregx_all_add (w mp : Nat) (g : Gen.ts_vregx_all.St) (m : Cross) (v : Pair) (h : R_ts_vregx_all g m) :
     R_ts_vregx_all (Gen.ts_vregx_all.add w g v) ((crossRoll (emitAll mp)).add m v) := by
   obtain ⟨h0, h1, h2, h3, h4, h5⟩ := h
-  rcases v with ⟨_ | a, _ | b⟩ <;> simp [Gen.ts_vregx_all.add, crossRoll, Cross.add, Cross.remove, R_ts_vregx_all, h0, h1, h2, h3, h4, h5]
+  rcases v with ⟨_ | a, _ | b⟩ <;> simp [Gen.ts_vregx_all.add, crossRoll, Cross.add, Cross.remove, R_ts_vregx_all, h0, h1, h2, h3, h4, h5, pow_two, pow_succ] <;> try ring
 theorem ts_vregx_all_post (w mp : Nat) (g : Gen.ts_vregx_all.St) (m : Cross) (x : Pair) (h : R_ts_vregx_all g m) :
     R_ts_vregx_all (Gen.ts_vregx_all.post w g (some x)) ((crossRoll (emitAll mp)).remove m x) := by
   obtain ⟨h0, h1, h2, h3, h4, h5⟩ := h
-  rcases x with ⟨_ | a, _ | b⟩ <;> simp [Gen.ts_vregx_all.post, crossRoll, Cross.add, Cross.remove, R_ts_vregx_all, h0, h1, h2, h3, h4, h5]
+  rcases x with ⟨_ | a, _ | b⟩ <;> simp [Gen.ts_vregx_all.post, crossRoll, Cross.add, Cross.remove, R_ts_vregx_all, h0, h1, h2, h3, h4, h5, pow_two, pow_succ] <;> try ring
 theorem ts_vregx_all_emit (sqrt : Rat → Rat) (w mp : Nat) (g : Gen.ts_vregx_all.St) (m : Cross) (v : Pair) (h : R_ts_vregx_all g m) :
     Agree3 sqrt (Gen.ts_vregx_all.emit sqrt w mp g v) ((crossRoll (emitAll mp)).emit m) := by
   obtain ⟨h0, h1, h2, h3, h4, h5⟩ := h
@@ -273,11 +273,11 @@ def R_ts_vreg (g : Gen.ts_vreg.St) (m : Trend) : Prop :=
 theorem ts_vreg_add (w mp : Nat) (g : Gen.ts_vreg.St) (m : Trend) (v : Option Rat) (h : R_ts_vreg g m) :
     R_ts_vreg (Gen.ts_vreg.add w g v) ((trendRoll (Fn1.emit .reg mp)).add m v) := by
   obtain ⟨h0, h1, h2⟩ := h
-  cases v <;> simp [Gen.ts_vreg.add, trendRoll, Trend.add, Trend.remove, R_ts_vreg, h0, h1, h2]
+  cases v <;> simp [Gen.ts_vreg.add, trendRoll, Trend.add, Trend.remove, R_ts_vreg, h0, h1, h2, pow_two, pow_succ] <;> try ring
 theorem ts_vreg_post (w mp : Nat) (g : Gen.ts_vreg.St) (m : Trend) (x : Option Rat) (h : R_ts_vreg g m) :
     R_ts_vreg (Gen.ts_vreg.post w g (some x)) ((trendRoll (Fn1.emit .reg mp)).remove m x) := by
   obtain ⟨h0, h1, h2⟩ := h
-  cases x <;> simp [Gen.ts_vreg.post, trendRoll, Trend.add, Trend.remove, R_ts_vreg, h0, h1, h2]
+  cases x <;> simp [Gen.ts_vreg.post, trendRoll, Trend.add, Trend.remove, R_ts_vreg, h0, h1, h2, pow_two, pow_succ] <;> try ring
 theorem ts_vreg_emit (sqrt : Rat → Rat) (w mp : Nat) (g : Gen.ts_vreg.St) (m : Trend) (v : Option Rat) (h : R_ts_vreg g m) :
     Agree sqrt (Gen.ts_vreg.emit sqrt w mp g v) ((trendRoll (Fn1.emit .reg mp)).emit m) := by
   obtain ⟨h0, h1, h2⟩ := h
@@ -313,11 +313,11 @@ def R_ts_vtsf (g : Gen.ts_vtsf.St) (m : Trend) : Prop :=
 theorem ts_vtsf_add (w mp : Nat) (g : Gen.ts_vtsf.St) (m : Trend) (v : Option Rat) (h : R_ts_vtsf g m) :
     R_ts_vtsf (Gen.ts_vtsf.add w g v) ((trendRoll (Fn1.emit .tsf mp)).add m v) := by
   obtain ⟨h0, h1, h2⟩ := h
-  cases v <;> simp [Gen.ts_vtsf.add, trendRoll, Trend.add, Trend.remove, R_ts_vtsf, h0, h1, h2]
+  cases v <;> simp [Gen.ts_vtsf.add, trendRoll, Trend.add, Trend.remove, R_ts_vtsf, h0, h1, h2, pow_two, pow_succ] <;> try ring
 theorem ts_vtsf_post (w mp : Nat) (g : Gen.ts_vtsf.St) (m : Trend) (x : Option Rat) (h : R_ts_vtsf g m) :
     R_ts_vtsf (Gen.ts_vtsf.post w g (some x)) ((trendRoll (Fn1.emit .tsf mp)).remove m x) := by
   obtain ⟨h0, h1, h2⟩ := h
-  cases x <;> simp [Gen.ts_vtsf.post, trendRoll, Trend.add, Trend.remove, R_ts_vtsf, h0, h1, h2]
+  cases x <;> simp [Gen.ts_vtsf.post, trendRoll, Trend.add, Trend.remove, R_ts_vtsf, h0, h1, h2, pow_two, pow_succ] <;> try ring
 theorem ts_vtsf_emit (sqrt : Rat → Rat) (w mp : Nat) (g : Gen.ts_vtsf.St) (m : Trend) (v : Option Rat) (h : R_ts_vtsf g m) :
     Agree sqrt (Gen.ts_vtsf.emit sqrt w mp g v) ((trendRoll (Fn1.emit .tsf mp)).emit m) := by
   obtain ⟨h0, h1, h2⟩ := h
@@ -353,11 +353,11 @@ def R_ts_vreg_slope (g : Gen.ts_vreg_slope.St) (m : Trend) : Prop :=
 theorem ts_vreg_slope_add (w mp : Nat) (g : Gen.ts_vreg_slope.St) (m : Trend) (v : Option Rat) (h : R_ts_vreg_slope g m) :
     R_ts_vreg_slope (Gen.ts_vreg_slope.add w g v) ((trendRoll (Fn1.emit .slope mp)).add m v) := by
   obtain ⟨h0, h1, h2⟩ := h
-  cases v <;> simp [Gen.ts_vreg_slope.add, trendRoll, Trend.add, Trend.remove, R_ts_vreg_slope, h0, h1, h2]
+  cases v <;> simp [Gen.ts_vreg_slope.add, trendRoll, Trend.add, Trend.remove, R_ts_vreg_slope, h0, h1, h2, pow_two, pow_succ] <;> try ring
 theorem ts_vreg_slope_post (w mp : Nat) (g : Gen.ts_vreg_slope.St) (m : Trend) (x : Option Rat) (h : R_ts_vreg_slope g m) :
     R_ts_vreg_slope (Gen.ts_vreg_slope.post w g (some x)) ((trendRoll (Fn1.emit .slope mp)).remove m x) := by
   obtain ⟨h0, h1, h2⟩ := h
-  cases x <;> simp [Gen.ts_vreg_slope.post, trendRoll, Trend.add, Trend.remove, R_ts_vreg_slope, h0, h1, h2]
+  cases x <;> simp [Gen.ts_vreg_slope.post, trendRoll, Trend.add, Trend.remove, R_ts_vreg_slope, h0, h1, h2, pow_two, pow_succ] <;> try ring
 theorem ts_vreg_slope_emit (sqrt : Rat → Rat) (w mp : Nat) (g : Gen.ts_vreg_slope.St) (m : Trend) (v : Option Rat) (h : R_ts_vreg_slope g m) :
     Agree sqrt (Gen.ts_vreg_slope.emit sqrt w mp g v) ((trendRoll (Fn1.emit .slope mp)).emit m) := by
   obtain ⟨h0, h1, h2⟩ := h
@@ -393,11 +393,11 @@ def R_ts_vreg_intercept (g : Gen.ts_vreg_intercept.St) (m : Trend) : Prop :=
 theorem ts_vreg_intercept_add (w mp : Nat) (g : Gen.ts_vreg_intercept.St) (m : Trend) (v : Option Rat) (h : R_ts_vreg_intercept g m) :
     R_ts_vreg_intercept (Gen.ts_vreg_intercept.add w g v) ((trendRoll (Fn1.emit .intercept mp)).add m v) := by
   obtain ⟨h0, h1, h2⟩ := h
-  cases v <;> simp [Gen.ts_vreg_intercept.add, trendRoll, Trend.add, Trend.remove, R_ts_vreg_intercept, h0, h1, h2]
+  cases v <;> simp [Gen.ts_vreg_intercept.add, trendRoll, Trend.add, Trend.remove, R_ts_vreg_intercept, h0, h1, h2, pow_two, pow_succ] <;> try ring
 theorem ts_vreg_intercept_post (w mp : Nat) (g : Gen.ts_vreg_intercept.St) (m : Trend) (x : Option Rat) (h : R_ts_vreg_intercept g m) :
     R_ts_vreg_intercept (Gen.ts_vreg_intercept.post w g (some x)) ((trendRoll (Fn1.emit .intercept mp)).remove m x) := by
   obtain ⟨h0, h1, h2⟩ := h
-  cases x <;> simp [Gen.ts_vreg_intercept.post, trendRoll, Trend.add, Trend.remove, R_ts_vreg_intercept, h0, h1, h2]
+  cases x <;> simp [Gen.ts_vreg_intercept.post, trendRoll, Trend.add, Trend.remove, R_ts_vreg_intercept, h0, h1, h2, pow_two, pow_succ] <;> try ring
 theorem ts_vreg_intercept_emit (sqrt : Rat → Rat) (w mp : Nat) (g : Gen.ts_vreg_intercept.St) (m : Trend) (v : Option Rat) (h : R_ts_vreg_intercept g m) :
     Agree sqrt (Gen.ts_vreg_intercept.emit sqrt w mp g v) ((trendRoll (Fn1.emit .intercept mp)).emit m) := by
   obtain ⟨h0, h1, h2⟩ := h
@@ -433,11 +433,11 @@ def R_ts_vreg_resid_mean (g : Gen.ts_vreg_resid_mean.St) (m : Trend) : Prop :=
 theorem ts_vreg_resid_mean_add (w mp : Nat) (g : Gen.ts_vreg_resid_mean.St) (m : Trend) (v : Option Rat) (h : R_ts_vreg_resid_mean g m) :
     R_ts_vreg_resid_mean (Gen.ts_vreg_resid_mean.add w g v) ((trendRoll (Fn1.emit .residMean mp)).add m v) := by
   obtain ⟨h0, h1, h2, h3⟩ := h
-  cases v <;> simp [Gen.ts_vreg_resid_mean.add, trendRoll, Trend.add, Trend.remove, R_ts_vreg_resid_mean, h0, h1, h2, h3]
+  cases v <;> simp [Gen.ts_vreg_resid_mean.add, trendRoll, Trend.add, Trend.remove, R_ts_vreg_resid_mean, h0, h1, h2, h3, pow_two, pow_succ] <;> try ring
 theorem ts_vreg_resid_mean_post (w mp : Nat) (g : Gen.ts_vreg_resid_mean.St) (m : Trend) (x : Option Rat) (h : R_ts_vreg_resid_mean g m) :
     R_ts_vreg_resid_mean (Gen.ts_vreg_resid_mean.post w g (some x)) ((trendRoll (Fn1.emit .residMean mp)).remove m x) := by
   obtain ⟨h0, h1, h2, h3⟩ := h
-  cases x <;> simp [Gen.ts_vreg_resid_mean.post, trendRoll, Trend.add, Trend.remove, R_ts_vreg_resid_mean, h0, h1, h2, h3]
+  cases x <;> simp [Gen.ts_vreg_resid_mean.post, trendRoll, Trend.add, Trend.remove, R_ts_vreg_resid_mean, h0, h1, h2, h3, pow_two, pow_succ] <;> try ring
 theorem ts_vreg_resid_mean_emit (sqrt : Rat → Rat) (w mp : Nat) (g : Gen.ts_vreg_resid_mean.St) (m : Trend) (v : Option Rat) (h : R_ts_vreg_resid_mean g m) :
     Agree sqrt (Gen.ts_vreg_resid_mean.emit sqrt w mp g v) ((trendRoll (Fn1.emit .residMean mp)).emit m) := by
   obtain ⟨h0, h1, h2, h3⟩ := h
